@@ -34,11 +34,14 @@ contract(M + "AnnealResults.pop", props=["C13"], instances=[{"self": R, "index":
 for name in ("__setitem__", "__delitem__"):
     for idx in ("int", "slice"):
         pass
-contract(M + "AnnealResults.__setitem__", props=["C13"],
+contract(M + "AnnealResults.sort", props=["C13"], instances=[{"self": R}], inherited=[],
+         requires=["best_ok(self)"], returns="none", modifies=["self"], ensures=["best_ok(self)"],
+         note="inherited from list: a permutation, checked through the trusted list specification")
+contract(M + "AnnealResults.__setitem__", props=["C13"], inherited=["index", "value"],
          instances=[{"self": R, "index": "int", "value": "rid"}, {"self": R, "index": "slice", "value": "resiter"}],
          requires=["best_ok(self)"], returns="none", modifies=["self"], ensures=["best_ok(self)"],
          may_raise=["IndexError"])
-contract(M + "AnnealResults.__delitem__", props=["C13"],
+contract(M + "AnnealResults.__delitem__", props=["C13"], inherited=["index"],
          instances=[{"self": R, "index": "int"}, {"self": R, "index": "slice"}],
          requires=["best_ok(self)"], returns="none", modifies=["self"], ensures=["best_ok(self)"],
          may_raise=["IndexError"])
